@@ -194,8 +194,9 @@ def install(sched, net, uuid_seed=0, line_codes=()):
     # every Pyro5 module attribute that is the time / threading / selectors module, or one of their blocking primitives
     # imported by name, is replaced (found dynamically: a changed tree may import them in other modules than today's)
     import queue as _queue
+    import select as _select
     qf = S.QueueFacade(sched)
-    by_identity = [(threading, tf), (_time, tm), (_selectors, sel), (_queue, qf), (_queue.Queue, qf.Queue),
+    by_identity = [(threading, tf), (_time, tm), (_selectors, sel), (_select, N.SelectFacade(net)), (_queue, qf), (_queue.Queue, qf.Queue),
                    (_queue.SimpleQueue, qf.SimpleQueue), (_queue.LifoQueue, qf.LifoQueue), (_queue.PriorityQueue, qf.PriorityQueue),
                    (threading.Lock, tf.Lock), (threading.RLock, tf.RLock), (threading.Event, tf.Event),
                    (threading.Condition, tf.Condition), (threading.Semaphore, tf.Semaphore),
